@@ -61,5 +61,5 @@ var c02Facts = Define("C02", "facts",
 
 func TestC02(t *testing.T) {
 	checkKnown(t, "C02")
-	c02Facts.Run(t, scale(400, 6000))
+	c02Facts.Run(t, scale(400, 4000))
 }
